@@ -129,3 +129,988 @@ def _init_types():
 
 
 _init_types()
+
+
+# ============================================================================ helpers
+
+def dev_by_id(w, aid):
+    for a in w.system._assets:
+        if a.id == aid:
+            return a
+    return None
+
+
+def gave_entries(w, accepted=None):
+    for t in w.hub.tlog:
+        if t[0] == 'gave' and (accepted is None or t[6] == accepted):
+            yield t
+
+
+def top_giver(w, rec):
+    '''Name of the device that initiated the (possibly nested) hand-over `rec` belongs to.'''
+    a = dev_by_id(w, w.hub.actor)
+    return a.name if a is not None else None
+
+
+def ev_action_name(ev):
+    a = ev.action
+    f = getattr(a, 'func', a)
+    return getattr(f, '__name__', type(f).__name__)
+
+
+def ev_owner(ev):
+    a = ev.action
+    f = getattr(a, 'func', a)
+    return getattr(f, '__self__', None)
+
+
+# ============================================================================ C03
+
+def ready_part(dev):
+    '''The part a device holds ready to leave right now, or None.'''
+    if not dev.is_operational():
+        return None
+    if isinstance(dev, Sink):
+        return None
+    if isinstance(dev, Source):
+        if dev._output is not None and dev.remaining_parts >= 1:
+            return dev._output
+        return None
+    if isinstance(dev, Buffer):
+        if not dev._buffer:
+            return None
+        t_in, part = dev._buffer[0]
+        now = dev.env.now
+        # the buffer's documented tolerance: one unit of rounding of the clock
+        if (t_in + dev.minimum_delay) - now > np.spacing(float(now)):
+            return None
+        return part
+    if isinstance(dev, PartHandler):
+        return dev._output
+    return None
+
+
+@monitor('wakeup')
+class WakeUp(Monitor):
+    '''C03: whenever the clock is about to advance (and at the end of the run) no
+    device holds a ready part that a downstream neighbour would accept.  Readiness
+    is computed here, acceptance by the REAL give_part on a forked copy.'''
+    prop = 'C03'
+
+    def quiescent(self, w):
+        cands = [d.name for d in w.dev.values()
+                 if isinstance(d, PartHandler) and d._downstream and ready_part(d) is not None]
+        if not cands:
+            return
+        w.facts.append('wakeup_probe')
+        snap = w.fork()
+        from simprocesd.model import System
+        for name in cands:
+            w2 = restore(snap)
+            w2.hub.probing = True
+            System._instance = w2.system
+            try:
+                d2 = w2.dev[name]
+                part = ready_part(d2)
+                for dwn in d2.get_sorted_downstream_list():
+                    if dwn.give_part(part):
+                        raise Violation('lost_wakeup',
+                                        f'at t={w.env.now} {name} holds ready part {part.id} and {dwn.name} '
+                                        f'accepts it when offered, but no hand-over attempt is pending')
+            finally:
+                System._instance = w.system
+        w.facts.append('blocked_part_genuinely_blocked')
+
+
+# ============================================================================ C05
+
+@monitor('buffer')
+class BufferMon(Monitor):
+    '''C05: capacity, level, FIFO, minimum delay.'''
+    prop = 'C05'
+    _canon_skip = ('pre',)
+
+    def __init__(self):
+        self.arrived = {}    # buffer -> {part id: arrival time} for stored parts
+        self.pre = {}
+
+    def buffers(self, w):
+        return [d for d in w.dev.values() if isinstance(d, Buffer)]
+
+    def before(self, w, label, ev):
+        self.pre = {b.name: [p.id for p in b.stored_parts] for b in self.buffers(w)}
+
+    def start(self, w):
+        self.pre = {b.name: [] for b in self.buffers(w)}
+        self._static(w)
+
+    def _static(self, w):
+        for b in self.buffers(w):
+            n = sum(len(p.parts) if isinstance(p, Batch) else 1 for p in b.stored_parts)
+            if b.level() != n:
+                raise Violation('level', f'{b.name}: level()={b.level()} but {n} parts stored')
+            if b.level() > b.capacity:
+                raise Violation('capacity', f'{b.name}: level {b.level()} exceeds capacity {b.capacity}')
+            if b._part is not None or b._output is not None:
+                raise Violation('level', f'{b.name}: part outside the store between events')
+
+    def after(self, w, label, ev):
+        now = w.env.now
+        actor = dev_by_id(w, w.hub.actor)
+        for b in self.buffers(w):
+            arr = self.arrived.setdefault(b.name, {})
+            old = self.pre.get(b.name, [])
+            arrivals = [t[2] for t in w.hub.tlog if t[0] == 'received' and t[1] == b.name]
+            for pid in arrivals:
+                arr[pid] = now
+            departed = []
+            if actor is b:
+                departed = [t[4] for t in gave_entries(w, True) if t[2] == -1]
+            cur = [p.id for p in b.stored_parts]
+            seq = old + arrivals
+            k = len(seq) - len(cur)
+            if k < 0 or seq[k:] != cur:
+                raise Violation('fifo', f'{b.name}: stored {old} + arrivals {arrivals} became {cur}: '
+                                        f'not a removal from the head')
+            if seq[:k] != departed:
+                raise Violation('fifo', f'{b.name}: parts {seq[:k]} left the store but hand-overs made by the '
+                                        f'buffer were {departed}')
+            for pid in departed:
+                t_in = arr.pop(pid)
+                if now < t_in + b.minimum_delay - np.spacing(float(now)):
+                    raise Violation('min_delay', f'{b.name}: part {pid} arrived {t_in} left {now}, '
+                                                 f'minimum delay {b.minimum_delay}')
+                w.facts.append('buffer_departure')
+            if len(cur) >= 2:
+                w.facts.append('buffer_holds_2+')
+        self._static(w)
+        if any(t[0] == 'gave' and not t[6] for t in w.hub.tlog):
+            w.facts.append('refusal')
+
+
+# ============================================================================ C15
+
+DATA_LABELS = ('received_part', 'produced_part', 'supplied_new_part', 'device_failure', 'enter_queue',
+               'start_work_order', 'finish_work_order', 'level', 'resource_update', 'schedule_update')
+
+
+@monitor('data')
+class DataMon(Monitor):
+    '''C15: recorded simulation data mirrors what happened (checked after every event).'''
+    prop = 'C15'
+    _canon_skip = ('pre', 'pre_sup')
+
+    def __init__(self):
+        self.pre = {}
+        self.pre_sup = {}
+
+    def _lens(self, w):
+        out = {}
+        for lab, d in w.env.simulation_data.items():
+            for name, recs in d.items():
+                out[(lab, name)] = len(recs)
+        return out
+
+    def start(self, w):
+        self.pre = self._lens(w)
+        self._static(w)
+
+    def before(self, w, label, ev):
+        self.pre = self._lens(w)
+        self.pre_sup = {s.name: Census.supplied(s) for s in w.sources()}
+
+    def _new(self, w, lab, name):
+        recs = w.env.simulation_data.get(lab, {}).get(name, [])
+        return recs[self.pre.get((lab, name), 0):]
+
+    def _static(self, w):
+        sd = w.env.simulation_data
+        for b in w.dev.values():
+            if isinstance(b, Buffer):
+                recs = sd.get('level', {}).get(b.name, [])
+                last = recs[-1][1] if recs else 0
+                if last != b.level():
+                    raise Violation('level_record', f'{b.name}: last recorded level {last}, actual {b.level()}')
+        rm = w.env.resource_manager
+        for r, (use, cap) in rm._resources.items():
+            recs = sd.get('resource_update', {}).get(r, [])
+            if not recs:
+                raise Violation('resource_record', f'no resource_update record for {r}')
+            if (recs[-1][1], recs[-1][2]) != (use, cap):
+                raise Violation('resource_record', f'{r}: last record {recs[-1][1:]} vs pool {(use, cap)}')
+        for s in w.sources():
+            n = len(sd.get('supplied_new_part', {}).get(s.name, []))
+            if s.produced_parts != n:
+                raise Violation('counter', f'{s.name}.produced_parts={s.produced_parts} but {n} supplied records')
+        for k in w.dev.values():
+            if isinstance(k, Sink):
+                n = len(sd.get('received_part', {}).get(k.name, []))
+                items = w.hub.delivered_items.get(k.name, [])
+                lv = w.hub.delivered.get(k.name, [])
+                if n != len(items):
+                    raise Violation('counter', f'{k.name}: {n} received records, {len(items)} deliveries')
+                if k.received_parts_count != len(lv):
+                    raise Violation('counter', f'{k.name}.received_parts_count={k.received_parts_count} but '
+                                               f'{len(lv)} parts were delivered')
+
+    def after(self, w, label, ev):
+        now = w.env.now
+        tl = w.hub.tlog
+        exp = {}
+
+        def add(lab, name, rec):
+            exp.setdefault((lab, name), []).append(rec)
+
+        for t in tl:
+            if t[0] == 'received':
+                add('received_part', t[1], (now, t[2], t[4], t[5]))
+            elif t[0] == 'finished':
+                add('produced_part', t[1], (now, t[2], t[4], t[5]))
+            elif t[0] == 'wo_request' and t[3]:
+                add('enter_queue', w.maintainer.name, (now, t[1], t[2], None))
+            elif t[0] == 'start_work':
+                add('start_work_order', w.maintainer.name, (now, t[1], t[2], None))
+            elif t[0] == 'end_work':
+                add('finish_work_order', w.maintainer.name, (now, t[1], t[2], None))
+        # supplied parts: accepted top-level hand-overs made by a source
+        actor = dev_by_id(w, w.hub.actor)
+        if isinstance(actor, Source):
+            for t in gave_entries(w, True):
+                if t[2] == -1:
+                    add('supplied_new_part', actor.name, (now, t[4]))
+        for s in w.sources():
+            d = Census.supplied(s) - self.pre_sup.get(s.name, 0)
+            got = len(exp.get(('supplied_new_part', s.name), []))
+            if d != got:
+                raise HarnessError(f'supply ground truth disagrees: {d} vs {got}')
+        # failures: one record per executed failure event
+        if label[0] == 'ev' and ev_action_name(ev) == '_fail' and not ev.cancelled:
+            o = ev_owner(ev)
+            lostp = [t[3] for t in tl if t[0] == 'shutdown' and t[1] == o.name and t[2]]
+            add('device_failure', o.name, (now, lostp[0] if lostp else None))
+        for lab in ('received_part', 'produced_part', 'supplied_new_part', 'device_failure', 'enter_queue',
+                    'start_work_order', 'finish_work_order'):
+            names = set(n for (l, n) in exp if l == lab) | set(w.env.simulation_data.get(lab, {}).keys())
+            for name in names:
+                new = [tuple(r) for r in self._new(w, lab, name)]
+                want = exp.get((lab, name), [])
+                if lab == 'device_failure' and want and not [t for t in tl if t[0] == 'shutdown']:
+                    want = [(now, new[0][1])] if new else want   # lost id not observable without callback
+                if new != want:
+                    raise Violation('records', f'{lab}[{name}] at t={now}: recorded {new}, happened {want}')
+                if new:
+                    w.facts.append('rec:' + lab)
+        for lab in ('level', 'resource_update'):
+            for name in w.env.simulation_data.get(lab, {}):
+                for r in self._new(w, lab, name):
+                    if r[0] != now:
+                        raise Violation('records', f'{lab}[{name}] record stamped {r[0]} at t={now}')
+        self._static(w)
+
+
+# ============================================================================ C16
+
+@monitor('value')
+class ValueMon(Monitor):
+    '''C16: value accounting identities after every event.'''
+    prop = 'C16'
+    _canon_skip = ('pre',)
+
+    def __init__(self):
+        self.supplied = {}    # source -> summed value at supply
+        self.received = {}    # sink -> summed value at receipt
+        self.costs = 0        # maintainer costs of started orders
+        self.pre = {}
+
+    def _assets(self, w):
+        out = list(w.system._assets)
+        seen = set(id(a) for a in out)
+        for d in w.flow_devices():
+            for it in held_items(d):
+                for p in [it] + (leaf_parts(it) if isinstance(it, Batch) else []):
+                    if id(p) not in seen:
+                        seen.add(id(p))
+                        out.append(p)
+            if isinstance(d, Sink):
+                for it in d.collected_parts:
+                    for p in [it] + (leaf_parts(it) if isinstance(it, Batch) else []):
+                        if id(p) not in seen:
+                            seen.add(id(p))
+                            out.append(p)
+        return out
+
+    def before(self, w, label, ev):
+        self.pre = {a.id: len(a._value_history) for a in self._assets(w)}
+
+    def start(self, w):
+        self.check(w, True)
+
+    def after(self, w, label, ev):
+        actor = dev_by_id(w, w.hub.actor)
+        for t in gave_entries(w, True):
+            if t[2] == -1 and isinstance(actor, Source):
+                self.supplied[actor.name] = self.supplied.get(actor.name, 0) + t[8]
+            if isinstance(w.dev.get(t[3]), Sink):
+                self.received[t[3]] = self.received.get(t[3], 0) + t[8]
+        for t in w.hub.tlog:
+            if t[0] == 'start_work':
+                self.costs += w.dev[t[1]].wo_table.get(t[2], (0, 0, 0))[2]
+        self.check(w, False)
+
+    def check(self, w, first):
+        now = w.env.now
+        net = 0
+        for a in self._assets(w):
+            if isinstance(a, Batch):
+                want = sum(p.value for p in a.parts)
+                if a.value != want:
+                    raise Violation('batch_value', f'batch {a.id}: value {a.value} vs sum of parts {want}')
+                continue
+            h = a._value_history
+            run = a._initial_value
+            tprev = 0
+            for i, e in enumerate(h):
+                if len(e) != 4:
+                    raise Violation('history', f'{a.name}: malformed entry {e}')
+                lab, t, dv, tot = e
+                if dv == 0:
+                    raise Violation('history', f'{a.name}: zero change recorded {e}')
+                run += dv
+                if tot != run:
+                    raise Violation('history', f'{a.name}: running total {tot} in {e}, expected {run}')
+                if t < tprev or t > now:
+                    raise Violation('history', f'{a.name}: entry time {t} out of order (now={now})')
+                tprev = t
+                if not first and i >= self.pre.get(a.id, 0) and t != now:
+                    raise Violation('history', f'{a.name}: new entry {e} not stamped with now={now}')
+            if a.value != run:
+                raise Violation('value', f'{a.name}: value {a.value} != initial {a._initial_value} + history = {run}')
+        for s in w.sources():
+            sup = self.supplied.get(s.name, 0)
+            if s.value != -sup or s.cost_of_produced_parts != sup:
+                raise Violation('source_value', f'{s.name}: value {s.value}, cost_of_produced_parts '
+                                                f'{s.cost_of_produced_parts}, value of supplied parts {sup}')
+        for k in w.dev.values():
+            if isinstance(k, Sink):
+                rec = self.received.get(k.name, 0)
+                if k.value != rec or k.value_of_received_parts != rec:
+                    raise Violation('sink_value', f'{k.name}: value {k.value}, value_of_received_parts '
+                                                  f'{k.value_of_received_parts}, value at receipt {rec}')
+                if rec:
+                    w.facts.append('sink_value_nonzero')
+        if w.maintainer is not None:
+            m = w.maintainer
+            if m.value != m._initial_value - self.costs:
+                raise Violation('maintainer_value', f'value {m.value} vs initial {m._initial_value} - costs {self.costs}')
+            if self.costs:
+                w.facts.append('wo_cost_charged')
+        from simprocesd.model.factory_floor import Asset
+        tot = sum(a.value for a in w.system._assets if isinstance(a, Asset))
+        if w.system.get_net_value_of_assets() != tot:
+            raise Violation('net_value', f'{w.system.get_net_value_of_assets()} vs {tot}')
+
+
+# ============================================================================ C06
+
+def _is_cycle_dev(d):
+    return isinstance(d, PartHandler) and not isinstance(d, (Source, Sink, Buffer, PartBatcher))
+
+
+@monitor('cycle')
+class CycleMon(Monitor):
+    '''C06: every accepted part is released from processing after exactly the cycle
+    time in effect at acceptance, measured in operational time of the device.'''
+    prop = 'C06'
+
+    def __init__(self):
+        self.acc = {}       # device -> [part id, needed, operational time so far]
+        self.count = {}     # device -> parts accepted so far
+        self.cur = {}       # device -> cycle time currently configured (spec + 'cycle' ops)
+        self.src_base = {}  # source -> time its current cycle started
+        self.src_items = {}
+        self.sink_last = {}
+
+    def attach(self, w):
+        self.specs = {d['name']: d for d in w.spec['devices']}
+        for d in w.spec['devices']:
+            if d['kind'] in ('handler', 'processor'):
+                self.cur[d['name']] = d.get('cycle', 0)
+            if d['kind'] == 'source':
+                self.src_base[d['name']] = 0
+                self.src_items[d['name']] = 0
+    _canon_skip = ('specs',)
+
+    def before(self, w, label, ev):
+        dt = ev.time - w.env.now
+        if dt < 0:
+            raise Violation('clock', f'event at {ev.time} executed at now={w.env.now}')
+        for name, a in self.acc.items():
+            if w.dev[name].is_operational():
+                a[2] += dt
+                if a[2] > a[1]:
+                    raise Violation('late', f'{name}: part {a[0]} has been processed for {a[2]} operational '
+                                            f'time units, cycle time in effect {a[1]}')
+
+    def after(self, w, label, ev):
+        now = w.env.now
+        if label[0] == 'op' and w.ops[label[1]][0] == 'cycle':
+            self.cur[w.ops[label[1]][1]] = w.ops[label[1]][2]
+        for t in w.hub.tlog:
+            k = t[0]
+            if k == 'received':
+                name = t[1]
+                d = w.dev[name]
+                if isinstance(d, Sink):
+                    last = self.sink_last.get(name)
+                    c = self.specs[name].get('cycle', 0)
+                    if last is not None and now < last + c:
+                        raise Violation('sink_cycle', f'{name} accepted at {now}, previous at {last}, cycle {c}')
+                    self.sink_last[name] = now
+                    continue
+                if not _is_cycle_dev(d):
+                    continue
+                if name in self.acc:
+                    raise Violation('one_at_a_time', f'{name} accepted part {t[2]} while processing {self.acc[name][0]}')
+                sp = self.specs[name]
+                i = self.count.get(name, 0)
+                self.count[name] = i + 1
+                c = self.cur[name]
+                if sp.get('cycles'):
+                    c = sp['cycles'][i % len(sp['cycles'])]
+                    self.cur[name] = c
+                off = sp['offsets'][i % len(sp['offsets'])] if sp.get('offsets') else 0
+                need = max(0, c + off)
+                self.acc[name] = [t[2], need, 0]
+                if need == 0:
+                    w.facts.append('zero_cycle')
+            elif k == 'shutdown' and t[2] and t[3] is not None:
+                a = self.acc.get(t[1])
+                if a is None or a[0] != t[3]:
+                    raise Violation('lost_unknown', f'{t[1]} reported loss of part {t[3]} which was not in process')
+                del self.acc[t[1]]
+                w.facts.append('part_lost_in_process')
+        # release from processing: input slot emptied
+        for name in list(self.acc):
+            d = w.dev[name]
+            a = self.acc[name]
+            if d._part is not None and d._part.id == a[0]:
+                continue
+            # the part left the input slot: it must be finished (output slot or handed on), on time
+            if a[2] != a[1]:
+                raise Violation('early' if a[2] < a[1] else 'late',
+                                f'{name}: part {a[0]} released from processing after {a[2]} operational time '
+                                f'units, cycle time in effect at acceptance {a[1]}')
+            if isinstance(d, PartProcessor):
+                fin = [t for t in w.hub.tlog if t[0] == 'finished' and t[1] == name and t[2] == a[0]]
+                if len(fin) != 1:
+                    raise Violation('finish_once', f'{name}: part {a[0]} finished {len(fin)} times')
+            del self.acc[name]
+            w.facts.append('cycle_completed')
+        for t in w.hub.tlog:
+            if t[0] == 'finished' and _is_cycle_dev(w.dev[t[1]]):
+                # finishing something that was not (or no longer) in process
+                d = w.dev[t[1]]
+                held = d._output.id if d._output is not None else None
+                gone = [g for g in gave_entries(w, True) if g[2] == -1 and g[4] == t[2]]
+                if held != t[2] and not gone:
+                    raise Violation('finish_once', f'{t[1]} finished part {t[2]} which it does not hold')
+        for d in w.dev.values():
+            if _is_cycle_dev(d) and d._part is not None and d.name not in self.acc:
+                raise Violation('one_at_a_time', f'{d.name} holds part {d._part.id} that was never accepted')
+        # sources: generation exactly one cycle after the previous part left (or after time 0)
+        actor = dev_by_id(w, w.hub.actor)
+        for s in w.sources():
+            c = self.specs[s.name].get('cycle', 0)
+            if actor is s and any(g[2] == -1 for g in gave_entries(w, True)):
+                self.src_base[s.name] = now        # a part left: the next cycle starts now
+            n = len(s._part_generator.items)
+            if n > self.src_items[s.name]:
+                if n - self.src_items[s.name] > 1:
+                    raise Violation('source_cycle', f'{s.name} generated {n - self.src_items[s.name]} parts in one event')
+                if now != self.src_base[s.name] + c:
+                    raise Violation('source_cycle', f'{s.name} generated a part at {now}; its cycle started at '
+                                                    f'{self.src_base[s.name]} with cycle time {c}')
+                self.src_items[s.name] = n
+                w.facts.append('source_cycle_checked')
+
+    def start(self, w):
+        # a zero-cycle source builds its first part during initialisation (time 0)
+        for s in w.sources():
+            n = len(s._part_generator.items)
+            c = self.specs[s.name].get('cycle', 0)
+            if n and (c != 0 or n != 1):
+                raise Violation('source_cycle', f'{s.name} generated {n} parts during initialisation, cycle {c}')
+            self.src_items[s.name] = n
+
+
+# ============================================================================ C13
+
+@monitor('shutdown')
+class ShutdownMon(Monitor):
+    '''C13: machine state, lost parts, callbacks, uptime/utilisation accounting.'''
+    prop = 'C13'
+    _canon_skip = ('pre', 'noop')
+
+    def __init__(self):
+        self.noop = None
+        self.up = {}       # processor -> integral of "operational"
+        self.use = {}      # processor -> integral of "processing a part"
+        self.orders = {}   # processor -> [tag, start time, externally restored?]
+        self.pre = {}
+
+    def procs(self, w):
+        return [d for d in w.dev.values() if isinstance(d, PartProcessor)]
+
+    def start(self, w):
+        for p in self.procs(w):
+            self.up[p.name] = 0
+            self.use[p.name] = 0
+        self.check_acct(w)
+
+    def before(self, w, label, ev):
+        dt = ev.time - w.env.now
+        self.pre = {}
+        for p in self.procs(w):
+            if p.is_operational():
+                self.up[p.name] += dt
+                if p._part is not None:
+                    self.use[p.name] += dt
+            self.pre[p.name] = (p.is_operational(), p._part.id if p._part is not None else None,
+                                p._output.id if p._output is not None else None)
+        # redundant shutdown / restore must change nothing
+        self.noop = None
+        if label[0] == 'op':
+            op = w.ops[label[1]]
+            if op[0] in ('shutdown', 'restore'):
+                p = w.dev[op[1]]
+                if (op[0] == 'shutdown') != p.is_operational():
+                    env = w.env
+                    now0 = env._now
+                    env._events.remove(ev)
+                    env._now = ev.time
+                    from . import canon
+                    self.noop = canon.digest(w.system)
+                    env._now = now0
+                    env._events.insert(0, ev)
+
+    def check_acct(self, w):
+        for p in self.procs(w):
+            if p.uptime != self.up[p.name]:
+                raise Violation('uptime', f'{p.name}.uptime={p.uptime}, operational time so far {self.up[p.name]} '
+                                          f'(t={w.env.now})')
+            if p.utilization_time != self.use[p.name]:
+                raise Violation('utilization', f'{p.name}.utilization_time={p.utilization_time}, time spent '
+                                               f'processing {self.use[p.name]} (t={w.env.now})')
+
+    def after(self, w, label, ev):
+        now = w.env.now
+        tl = w.hub.tlog
+        nprobe = w.spec.get('probes', 0)
+        if self.noop is not None:
+            from . import canon
+            if canon.digest(w.system) != self.noop:
+                raise Violation('noop', f'redundant {w.ops[label[1]][0]} of {w.ops[label[1]][1]} changed the state')
+            w.facts.append('redundant_call_checked')
+        actor = dev_by_id(w, w.hub.actor)
+        state = {n: v[0] for n, v in self.pre.items()}
+        i = 0
+        while i < len(tl):
+            t = tl[i]
+            k = t[0]
+            if k == 'shutdown':
+                name, isf, pid = t[1], t[2], t[3]
+                if not isf and not state[name]:
+                    raise Violation('callbacks', f'{name}: shutdown callback while already down')
+                state[name] = False
+                for n in range(nprobe):
+                    j = i + 1 + n
+                    if j >= len(tl) or tl[j] != ('probe_shutdown', name, n, isf, pid):
+                        raise Violation('callbacks', f'{name}: shutdown callbacks not once each in registration '
+                                                     f'order: {tl[i:i + nprobe + 1]}')
+                i += nprobe
+                if isf:
+                    pre = self.pre[name]
+                    if pid != pre[1]:
+                        raise Violation('lost_part', f'{name}: failure reported lost part {pid}, part in process was {pre[1]}')
+                    p = w.dev[name]
+                    if p._part is not None:
+                        raise Violation('lost_part', f'{name}: part still in process after failure')
+                    if (p._output.id if p._output is not None else None) != pre[2]:
+                        raise Violation('finished_part_kept', f'{name}: finished part {pre[2]} did not survive the failure')
+                    w.facts.append('failure_with_part' if pid is not None else 'failure_without_part')
+            elif k == 'probe_shutdown' or k == 'probe_restored':
+                raise Violation('callbacks', f'stray probe callback {t}')
+            elif k == 'restored':
+                name = t[1]
+                if state[name]:
+                    raise Violation('callbacks', f'{name}: restored callback while operational')
+                state[name] = True
+                for n in range(nprobe):
+                    j = i + 1 + n
+                    if j >= len(tl) or tl[j] != ('probe_restored', name, n):
+                        raise Violation('callbacks', f'{name}: restored callbacks not once each in order')
+                i += nprobe
+                o = self.orders.get(name)
+                if o is not None:
+                    o[2] = True       # restored while an order is active (by end_work or by someone else)
+            elif k == 'received' and t[1] in state and not state[t[1]]:
+                raise Violation('accept_while_down', f'{t[1]} accepted part {t[2]} while shut down')
+            elif k == 'gave' and t[6] and t[2] == -1 and actor is not None and actor.name in state \
+                    and not state[actor.name]:
+                raise Violation('release_while_down', f'{actor.name} released part {t[4]} while shut down')
+            elif k == 'start_work':
+                self.orders[t[1]] = [t[2], now, False]
+            elif k == 'end_work':
+                o = self.orders.pop(t[1], None)
+                if o is not None:
+                    dur = w.dev[t[1]].wo_table.get(o[0], (0, 0, 0))[1]
+                    if now != o[1] + dur:
+                        raise Violation('order_duration', f'{t[1]}: order {o[0]} started {o[1]} ended {now}, duration {dur}')
+                    w.facts.append('order_completed')
+            i += 1
+        for p in self.procs(w):
+            if state[p.name] != p.is_operational():
+                raise Violation('callbacks', f'{p.name}: operational={p.is_operational()} but callbacks say {state[p.name]}')
+            o = self.orders.get(p.name)
+            if o is not None and not o[2] and p.is_operational():
+                raise Violation('order_keeps_down', f'{p.name} is operational during work order {o[0]}')
+        # failure event with no callback at all
+        if label[0] == 'ev' and ev_action_name(ev) == '_fail' and not ev.cancelled:
+            o = ev_owner(ev)
+            n = len([t for t in tl if t[0] == 'shutdown' and t[1] == o.name and t[2]])
+            if n != 1:
+                raise Violation('lost_part', f'{o.name}: failure reported {n} times to shutdown callbacks '
+                                             f'(part in process was {self.pre[o.name][1]})')
+        self.check_acct(w)
+
+
+# ============================================================================ C11
+
+@monitor('resources')
+class ResourceMon(Monitor):
+    '''C11: processors hold exactly what they need; pool usage = sum of holdings.'''
+    prop = 'C11'
+
+    def procs(self, w):
+        return [d for d in w.dev.values() if isinstance(d, PartProcessor) and d._resources_for_processing]
+
+    def start(self, w):
+        self.check(w)
+
+    def check(self, w):
+        rm = w.env.resource_manager
+        want = Counter()
+        for p in self.procs(w):
+            rr = p._reserved_resources
+            req = {k: v for k, v in p._resources_for_processing.items() if v > 0}
+            if rr is not None:
+                if rr.reserved_resources != req:
+                    raise Violation('holdings', f'{p.name} holds {rr.reserved_resources}, declared {req}')
+                want.update(req)
+                w.facts.append('holding')
+            if p._part is not None and rr is None:
+                raise Violation('process_without_resources', f'{p.name} has part {p._part.id} in process without holding {req}')
+        for r in set(want) | set(rm._resources):
+            if rm.get_resource_usage(r) != want.get(r, 0):
+                raise Violation('usage', f'pool {r}: usage {rm.get_resource_usage(r)} vs holdings of processors {want.get(r, 0)}')
+
+    def after(self, w, label, ev):
+        self.check(w)
+        if label[0] == 'ev' and ev_action_name(ev) == '_fail' and not ev.cancelled:
+            p = ev_owner(ev)
+            if getattr(p, '_reserved_resources', None) is not None:
+                raise Violation('release_on_failure', f'{p.name} still holds resources after failing')
+        for t in w.hub.tlog:
+            if t[0] == 'gave' and not t[6]:
+                w.facts.append('refusal')
+
+    def quiescent(self, w):
+        for p in self.procs(w):
+            if p.is_operational() and p._part is None and p._reserved_resources is not None:
+                raise Violation('idle_holding', f'{p.name} is idle and operational at t={w.env.now} but holds '
+                                                f'{p._reserved_resources.reserved_resources}')
+
+
+# ============================================================================ C08
+
+@monitor('route')
+class RouteMon(Monitor):
+    '''C08: parts move only along configured connections, through accepting gates,
+    never into blocked inputs, leave groups through the path they entered by; routing
+    history = observed route; collected list in arrival order; idle-longest rule.'''
+    prop = 'C08'
+    _canon_skip = ('pre_idle', 'kinds')
+
+    def __init__(self, idle_rule=False):
+        self.idle_rule = idle_rule
+        self.up = {}        # device -> list of upstream names (spec, updated by 'upstream' ops)
+        self.route = {}     # part/batch id -> observed route (names)
+        self.stack = {}     # part/batch id -> group paths entered and not left
+        self.idle_since = {}
+        self.pre_idle = {}
+        self.kinds = {}
+
+    def attach(self, w):
+        self.kinds = {}
+        self.members = {}
+        self.path_group = {}
+        for d in w.spec['devices']:
+            self.kinds[d['name']] = d['kind']
+            if d['kind'] == 'group':
+                self.members[d['name']] = list(d['members'])
+            elif d['kind'] == 'path':
+                self.path_group[d['name']] = d['group']
+                self.up[d['name']] = list(d.get('up', []))
+            elif d['kind'] != 'maintainer':
+                self.up[d['name']] = list(d.get('up', []))
+
+    def start(self, w):
+        for d in w.dev.values():
+            if _is_cycle_dev(d):
+                self.idle_since[d.name] = 0
+        self.check_histories(w)
+
+    def downstream_of(self, name):
+        return [d for d, ups in self.up.items() if name in ups]
+
+    def before(self, w, label, ev):
+        # which single-slot devices could take a part right now, and since when they are idle
+        self.pre_idle = {}
+        for d in w.dev.values():
+            if _is_cycle_dev(d) and d._part is None and d._output is None and d.is_operational() \
+                    and not d.block_input:
+                self.pre_idle[d.name] = self.idle_since.get(d.name, 0)
+
+    def _group_of_io(self, w, dev):
+        return dev._group.name
+
+    def after(self, w, label, ev):
+        now = w.env.now
+        tl = w.hub.tlog
+        for t in tl:
+            if t[0] == 'upstream':
+                self.up[t[1]] = list(t[2])
+        gives = w.hub.gives
+        actor = dev_by_id(w, w.hub.actor)
+        # new parts appear in their source with the source as first history entry
+        for s in w.sources():
+            it = s._output
+            if it is not None and it.id not in self.route:
+                for p in [it] + (leaf_parts(it) if isinstance(it, Batch) else []):
+                    self.route[p.id] = [s.name]
+                    self.stack[p.id] = []
+        # batches assembled by a batcher start with an empty history
+        for d in w.dev.values():
+            if isinstance(d, PartBatcher):
+                for b in (d._in_progress_batch, d._output):
+                    if isinstance(b, Batch) and b.id not in self.route:
+                        self.route[b.id] = []
+                        self.stack[b.id] = []
+        for rec in gives:
+            if rec is None or not rec[6] or rec[2] != -1:
+                continue
+            # one accepted top-level hand-over: follow the accepted chain
+            giver = actor.name if actor is not None else None
+            chain = [rec]
+            while True:
+                kids = [g for g in gives if g is not None and g[2] == chain[-1][1] and g[6]]
+                if not kids:
+                    break
+                if len(kids) > 1:
+                    raise Violation('duplicate', f'part {rec[4]} accepted by several receivers: {[k[3] for k in kids]}')
+                chain.append(kids[0])
+            pid, lv = rec[4], rec[5]
+            ids = [pid] + [x for x in lv if x != pid]
+            prev = giver
+            prev_dev = actor
+            for g in chain:
+                rname = g[3]
+                rdev = None
+                for a in w.system._assets:
+                    if getattr(a, 'name', None) == rname and isinstance(a, PartFlowController):
+                        rdev = a
+                        break
+                if g[10]:
+                    raise Violation('blocked_input', f'part {pid} entered {rname} whose input is blocked')
+                # edge check against the specification graph
+                if isinstance(rdev, GroupInput):
+                    if self.kinds.get(prev) != 'path' or self.path_group[prev] != rdev._group.name:
+                        raise Violation('edge', f'{prev} -> input of group {rdev._group.name} is not configured')
+                elif isinstance(rdev, GroupOutput):
+                    gname = rdev._group.name
+                    if prev != self.members[gname][-1]:
+                        raise Violation('edge', f'{prev} -> output of group {gname}: not the last device of the group')
+                elif isinstance(prev_dev, GroupInput):
+                    gname = prev_dev._group.name
+                    if rname != self.members[gname][0]:
+                        raise Violation('edge', f'input of group {gname} -> {rname}: not the first device of the group')
+                elif isinstance(prev_dev, GroupOutput):
+                    gname = prev_dev._group.name
+                    st = self.stack.get(pid, [])
+                    if not st:
+                        raise Violation('group_exit', f'part {pid} leaves group {gname} without having entered it')
+                    entry = st[-1]
+                    if self.path_group.get(entry) != gname:
+                        raise Violation('group_exit', f'part {pid} leaves group {gname} but its innermost entered '
+                                                      f'path is {entry} of group {self.path_group.get(entry)}')
+                    if rname not in self.downstream_of(entry):
+                        raise Violation('group_exit', f'part {pid} entered group {gname} through {entry} but left '
+                                                      f'towards {rname}, which is not downstream of {entry}')
+                    for i in ids:
+                        if i in self.stack:
+                            self.stack[i].pop()
+                    w.facts.append('group_exit')
+                else:
+                    if prev not in self.up.get(rname, []):
+                        raise Violation('edge', f'part {pid} moved {prev} -> {rname}: not a configured connection')
+                if self.kinds.get(rname) == 'gate':
+                    from .line import DECIDERS
+                    dec = self.spec_of(w, rname).get('decider', 'all')
+                    q = g[9]
+                    ok = {'q_ge': q >= 0.5, 'q_lt': q < 0.5, 'all': True}[dec]
+                    if not ok:
+                        raise Violation('gate', f'part {pid} (quality {q}) passed gate {rname} ({dec})')
+                    w.facts.append('gate_pass')
+                if not isinstance(rdev, (GroupInput, GroupOutput)):
+                    for i in ids:
+                        self.route.setdefault(i, []).append(rname)
+                if self.kinds.get(rname) == 'path':
+                    for i in ids:
+                        self.stack.setdefault(i, []).append(rname)
+                prev, prev_dev = rname, rdev
+            final = chain[-1][3]
+            fdev = w.dev.get(final)
+            if fdev is None or not isinstance(fdev, PartHandler):
+                raise Violation('edge', f'part {pid} accepted by {final}, which cannot hold parts')
+            # idle-longest rule among parallel single-slot candidates of the giver
+            if self.idle_rule and _is_cycle_dev(fdev) and len(chain) == 1:
+                cands = [c for c in self.downstream_of(giver) if c in self.pre_idle]
+                if final in self.pre_idle and len(cands) > 1:
+                    best = min(self.pre_idle[c] for c in cands)
+                    if self.pre_idle[final] != best:
+                        raise Violation('idle_longest', f'{giver} gave part {pid} to {final} (idle since '
+                                                        f'{self.pre_idle[final]}) although '
+                                                        f'{[c for c in cands if self.pre_idle[c] == best]} idle since {best}')
+                    w.facts.append('idle_choice')
+            if giver in self.idle_since and actor._part is None and actor._output is None:
+                self.idle_since[giver] = now
+        # refused top-level attempts: note for vacuity
+        if any(g is not None and not g[6] for g in gives):
+            w.facts.append('refusal')
+        for d in w.dev.values():
+            if _is_cycle_dev(d) and d.name in self.idle_since and d._part is None and d._output is None \
+                    and not self.pre_idle.get(d.name, None) is not None and False:
+                pass
+        self.check_histories(w)
+
+    def spec_of(self, w, name):
+        for d in w.spec['devices']:
+            if d['name'] == name:
+                return d
+        return {}
+
+    def check_histories(self, w):
+        live = []
+        for d in w.flow_devices():
+            for it in held_items(d):
+                live.append(it)
+                if isinstance(it, Batch):
+                    live.extend(leaf_parts(it))
+            if isinstance(d, Sink):
+                items = w.hub.delivered_items.get(d.name, [])
+                got = [p.id for p in d.collected_parts]
+                if got != items:
+                    raise Violation('collected_order', f'{d.name}.collected_parts {got} vs arrival order {items}')
+                for it in d.collected_parts:
+                    live.append(it)
+                    if isinstance(it, Batch):
+                        live.extend(leaf_parts(it))
+        for p in live:
+            want = self.route.get(p.id)
+            if want is None:
+                continue
+            got = [x.name for x in p.routing_history]
+            if got != want:
+                raise Violation('routing_history', f'part {p.id}: routing history {got}, observed route {want}')
+            gp = [x.name for x in p._group_pathing]
+            if gp != self.stack.get(p.id, []):
+                raise Violation('group_stack', f'part {p.id}: entered-path stack {gp}, observed {self.stack.get(p.id, [])}')
+
+
+# ============================================================================ C17
+
+@monitor('batching')
+class BatchMon(Monitor):
+    '''C17: order and exact batch sizes through batchers; acceptance discipline.'''
+    prop = 'C17'
+    _canon_skip = ('pre',)
+
+    def __init__(self):
+        self.inq = {}     # batcher -> leaf ids that entered and have not left, in order
+        self.pre = {}
+
+    def batchers(self, w):
+        return [d for d in w.dev.values() if isinstance(d, PartBatcher)]
+
+    def before(self, w, label, ev):
+        self.pre = {b.name: (b._part is None, b._output is None) for b in self.batchers(w)}
+
+    def inside(self, b):
+        out = []
+        out.extend(leaves(b._output))
+        out.extend(leaves(b._in_progress_batch))
+        out.extend(leaves(b._part))
+        return out
+
+    def after(self, w, label, ev):
+        actor = dev_by_id(w, w.hub.actor)
+        for b in self.batchers(w):
+            q = self.inq.setdefault(b.name, [])
+            n = b.output_batch_size
+            seen_receive = False
+            for t in w.hub.tlog:
+                if t[0] == 'received' and t[1] == b.name:
+                    if seen_receive or not all(self.pre[b.name]):
+                        raise Violation('accept_discipline', f'{b.name} accepted input while it still had something '
+                                                             f'to unpack or a part waiting to leave')
+                    seen_receive = True
+                    q.extend(t[3])
+                    w.facts.append('batcher_in:' + ('batch' if len(t[3]) != 1 or t[2] not in t[3] else 'single'))
+                elif t[0] == 'gave' and t[6] and t[2] == -1 and actor is b:
+                    lv = list(t[5])
+                    if n is None:
+                        if t[7] or len(lv) != 1:
+                            raise Violation('batch_size', f'{b.name} (single-part output) emitted {lv}')
+                    else:
+                        if not t[7] or len(lv) != n:
+                            raise Violation('batch_size', f'{b.name} emitted {"a batch of" if t[7] else "a single part"} '
+                                                          f'{lv}; configured size {n}')
+                    if q[:len(lv)] != lv:
+                        raise Violation('batch_order', f'{b.name} emitted {lv} but parts arrived in order {q}')
+                    del q[:len(lv)]
+                    w.facts.append('batcher_out')
+            if q != self.inside(b):
+                raise Violation('batch_order', f'{b.name}: parts inside in order {self.inside(b)} but arrival order '
+                                               f'of parts not yet emitted is {q}')
+            ipb = b._in_progress_batch
+            if ipb is not None and n is not None and len(ipb.parts) >= n:
+                raise Violation('batch_size', f'{b.name}: batch under construction has {len(ipb.parts)} >= {n} parts')
+            if b._output is not None and n is not None and (not isinstance(b._output, Batch) or len(b._output.parts) != n):
+                raise Violation('batch_size', f'{b.name}: output waiting to leave is not a batch of {n}')
+        # history updates reach all contained parts; counts by leaves
+        for d in w.flow_devices():
+            for it in held_items(d):
+                if isinstance(it, Batch):
+                    hb = [x.name for x in it.routing_history]
+                    for p in it.parts:
+                        hp = [x.name for x in p.routing_history]
+                        if hb and hp[-len(hb):] != hb:
+                            raise Violation('batch_history', f'batch {it.id} history {hb} not applied to part {p.id}: {hp}')
+            if isinstance(d, Sink):
+                if d.received_parts_count != len(w.hub.delivered.get(d.name, [])):
+                    raise Violation('leaf_count', f'{d.name}.received_parts_count={d.received_parts_count} but '
+                                                  f'{len(w.hub.delivered.get(d.name, []))} parts delivered')
+            if isinstance(d, Buffer):
+                nleaf = sum(len(leaves(p)) for p in d.stored_parts)
+                if d.level() != nleaf:
+                    raise Violation('leaf_count', f'{d.name}.level()={d.level()} but holds {nleaf} parts')
